@@ -501,6 +501,10 @@ class Visitor(ast.NodeVisitor):
             # Since we evaluate generator expressions with runtime compilation, a placeholder is returned here.
             return PLACEHOLDER
 
+        if result is PLACEHOLDER:
+            # The name is a target of an enclosing comprehension. The placeholder is not a value to be represented.
+            return PLACEHOLDER
+
         self.recomputed_values[node] = result
         return result
 
